@@ -37,7 +37,7 @@ def run_one(kind, entry):
         else:
             props = props_override or ALL
         for pid in props:
-            pr = subprocess.run([os.path.join(ROOT, "bin", "evcheck"), "-repo", repo, "-verif", ROOT, "-out", out, pid], env=ENV, capture_output=True, text=True)
+            pr = subprocess.run([os.environ.get("EVCHECK_BIN", os.path.join(ROOT, "bin", "evcheck")), "-repo", repo, "-verif", ROOT, "-out", out, pid], env=ENV, capture_output=True, text=True)
             hit = [l for l in pr.stdout.splitlines() if l.startswith("VIOLATION") or l.startswith("UNDECIDED")]
             detail = [l.strip() for l in pr.stdout.splitlines() if l.startswith("  C") or l.startswith("UNDECIDED")]
             if pr.returncode != 0 and hit:
